@@ -21,9 +21,81 @@ pub struct Case {
     /// adjacent f64 values) to where that time crosses 24:00 -> 00:00 and evaluate a fan of +-8 ulps around the crossing
     #[serde(default)]
     pub boundary_lon: bool,
+    /// boundary-directed: Some(k) = move the latitude (bisected to adjacent f64 values) onto the existence boundary of
+    /// Fajr (k = 0), Isha (1) or Imsaak (2) in the summer hemisphere and evaluate the schedule at the last latitude where
+    /// the time exists, at 1e-12..1e-4 deg inside and at 0..1e-3 deg beyond it (where it must simply be Invalid - or, if
+    /// reported, still be in order)
+    #[serde(default)]
+    pub boundary_lat: Option<u8>,
 }
 
 impl C05 {
+    fn existence_boundary_directed(&self, c: &Case, k: u8, st: &mut Stats) -> Result<(), Failure> {
+        let mut plain = c.clone();
+        plain.boundary_lat = None;
+        plain.spec.policy = gen::P_NONE;
+        let (fa, ia, ima) = plain.spec.angles();
+        let (fi, ii, _) = plain.spec.intervals();
+        let (prayer, angle) = match k {
+            0 if fi == 0.0 => (Prayer::Fajr, fa),
+            1 if ii == 0.0 => (Prayer::Isha, ia),
+            2 if fi == 0.0 => (Prayer::Imsaak, fa + ima),
+            _ => {
+                st.skip("existence_boundary_entry_is_interval_defined");
+                return Ok(());
+            }
+        };
+        let d0 = crate::oracle::ephem::dec0(c.date, c.site.gmt.0);
+        let sign = if d0 >= 0.0 { 1.0 } else { -1.0 };
+        let phi_b = 90.0 - angle - d0.abs();
+        if !(20.0..=59.7).contains(&phi_b) {
+            st.skip("existence_boundary_latitude_outside_20_to_59.7");
+            return Ok(());
+        }
+        let valid = |lat: f64| -> bool {
+            let mut s = c.site;
+            s.lat = F(lat);
+            t(&compute(&s, &plain.spec, c.date, None), prayer).is_some()
+        };
+        let (mut lo, mut hi) = (sign * (phi_b - 0.3), sign * (phi_b + 0.3).min(60.0));
+        if !valid(lo) || valid(hi) {
+            st.skip("existence_boundary_bracket_not_found");
+            return Ok(());
+        }
+        for _ in 0..80 {
+            let mid = 0.5 * (lo + hi);
+            if mid == lo || mid == hi {
+                break;
+            }
+            if valid(mid) {
+                lo = mid;
+            } else {
+                hi = mid;
+            }
+        }
+        let mut lats: Vec<(f64, &str)> = Vec::new();
+        for d in [0.0, 1e-12, 1e-10, 1e-8, 1e-7, 1e-6, 1e-5, 1e-4] {
+            lats.push((lo - sign * d, "at-existence-boundary"));
+        }
+        for d in [0.0, 1e-9, 1e-8, 1e-7, 1e-6, 1e-5, 1e-4, 1e-3] {
+            if (hi + sign * d).abs() <= 60.0 {
+                lats.push((hi + sign * d, "beyond-existence-boundary"));
+            }
+        }
+        for (lat, tag) in lats {
+            let mut c2 = plain.clone();
+            c2.site.lat = F(lat);
+            crate::engine::catch(|| self.check(&c2, st))
+                .map_err(|pn| Failure::new(format!("panic-at-existence-boundary:{}", pn), "a complete, ordered schedule", format!("{} at latitude {:?}", pn, lat)))?
+                .map_err(|mut f| {
+                    f.signature = format!("{}:{}", f.signature, tag);
+                    f.observed = format!("{} [latitude {:?}, next to where {:?} stops existing]", f.observed, lat, prayer);
+                    f
+                })?;
+        }
+        st.class("boundary_directed_existence_boundary_done");
+        Ok(())
+    }
     fn boundary_directed(&self, c: &Case, st: &mut Stats) -> Result<(), Failure> {
         let mut plain = c.clone();
         plain.boundary_lon = false;
@@ -148,11 +220,14 @@ impl Prop for C05 {
                 s
             });
         let site_date = prop_oneof![10 => (gen::site(60.0, 6.0), gen::date()), 1 => gen::ra_wrap_site_date(60.0, 6.0, 12.0)];
-        (site_date, spec, prop_oneof![15 => Just(false), 1 => Just(true)])
-            .prop_map(|((site, date), spec, boundary_lon)| Case { site, spec, date, boundary_lon })
+        (site_date, spec, prop_oneof![15 => Just(false), 1 => Just(true)], prop_oneof![24 => Just(None), 1 => (0u8..3).prop_map(Some)])
+            .prop_map(|((site, date), spec, boundary_lon, boundary_lat)| Case { site, spec, date, boundary_lon: boundary_lon && boundary_lat.is_none(), boundary_lat })
             .boxed()
     }
     fn check(&self, c: &Case, st: &mut Stats) -> Result<(), Failure> {
+        if let Some(k) = c.boundary_lat {
+            return self.existence_boundary_directed(c, k, st);
+        }
         if c.boundary_lon {
             return self.boundary_directed(c, st);
         }
